@@ -1,5 +1,6 @@
 """C16 — CIGAR -> exon blocks, polyA/polyT exon trimming, tail detection."""
-import itertools, random, types
+import itertools, os, random, shutil, traceback, types, collections
+from fractions import Fraction
 from lib import *
 
 OPN = {0: "Cigar.M", 1: "Cigar.I", 2: "Cigar.D", 3: "Cigar.N", 4: "Cigar.S", 5: "Cigar.H", 6: "Cigar.P", 7: "Cigar.EQ", 8: "Cigar.X"}
@@ -45,16 +46,31 @@ def random_valid_cigar(rnd, maxops=12, maxlen=60, allow_p=False):
     return ops
 
 
+def guarded(ctx, name, f, *a):
+    """one section of the check: an exception of the harness (or of real code called outside an adapter) breaks that section only"""
+    try:
+        return f(*a)
+    except Exception:
+        ctx.broken("harness:%s" % name, "exception in section %s:\n%s" % (name, traceback.format_exc()[-3000:]))
+
+
 def run(ctx):
-    import pysam
-    from src.common import get_read_blocks, concat_gapless_blocks, correct_bam_coords
-    from src.alignment_info import AlignmentInfo
-    from src import polya_verification as pv
-    from src import polya_finder as pf
     quick = ctx.tier == "quick"
     ctx.prepare("C16.v")
     ctx.rule("regenerated from the source on every run (tools/translate_extra.py -> coq/gen/Extra.v; bridged to the models by C16_cigar_codes_are_the_sources, C16_polya_exon_counts_are_the_sources, C16_finder_defaults_are_the_sources): CigarEvent values with get_match_events / get_ins_del_match_events (the code -> constructor table OPN of this file is CigarBridgeDefs.cigar_of_code), the sentinel / scan direction / break test / exon test of PolyAFixer.count_polya_exons and count_polyt_exons, the PolyAFinder defaults (window 16, fraction 0.75, polyA_count 12) and its external / internal search windows")
+    guarded(ctx, "get_read_blocks", sec_read_blocks, ctx, quick)
+    ctx.exhaustive = False
+    guarded(ctx, "alignment_info", sec_alignment_info, ctx, quick)
+    guarded(ctx, "add_polya_info", sec_add_polya_info, ctx, quick)
+    guarded(ctx, "polya_finder", sec_finder, ctx, quick)
+    guarded(ctx, "end_to_end_trimming", sec_e2e, ctx, quick)
+    guarded(ctx, "pipeline", sec_pipeline, ctx, quick)
+    ctx.assume.append("pysam/htslib: cigartuples, get_blocks, reference_end")
+    ctx.assume.append("pipeline section: the harness' BAM reader (pysam) and TSV parser; harness/props/c16_hook.py only logs calls")
 
+
+def sec_read_blocks(ctx, quick):
+    from src.common import get_read_blocks
     # ---- 1. get_read_blocks: exhaustive short CIGARs + random long ones
     cases = []
     for rs, ops in gen_cigars(ctx, 3 if quick else 4, 3000 if quick else 20000):
@@ -66,8 +82,12 @@ def run(ctx):
     ctx.rule("get_read_blocks: every CIGAR of <= %d operations over {M,I,D,N,S,H,P,=,X} x lengths {1,2} x ref_start {0,255} (exhaustive) + random CIGARs of up to 40 operations; non-trivial = at least one block reported" % (3 if quick else 4))
     mism, viol = ctx.corr("get_read_blocks", PRE_GRB, cases, nontrivial=lambda o: len(o["impl"][0]) > 0)
     ctx.corr_report("get_read_blocks", mism, viol)
-    ctx.exhaustive = False
 
+
+def sec_alignment_info(ctx, quick):
+    import pysam
+    from src.common import concat_gapless_blocks
+    from src.alignment_info import AlignmentInfo
     # ---- 2. AlignmentInfo on real pysam segments (cigartuples glue) + pysam get_blocks + concat_gapless_blocks
     PRE_AI = PRE_GRB + """
 Definition strip_clips (ops:list cop) := filter (fun c => negb (is_clip (fst c))) ops.
@@ -91,17 +111,26 @@ Definition prop2 (c:((Z * list cop) * list (iv*iv*iv)) * (list iv * list iv)) :=
         rs = rnd.randint(0, 100000)
         a = pysam.AlignedSegment(); a.query_name = "r"; a.flag = 0; a.reference_id = 0; a.reference_start = rs; a.cigartuples = ops
         qlen = sum(l for o, l in ops if o in (0, 1, 4, 7, 8)); a.query_sequence = "".join(rnd.choice("ACGT") for _ in range(qlen))
-        ai = AlignmentInfo(a)
-        blocks = a.get_blocks(); cg = concat_gapless_blocks(blocks, a.cigartuples)
         ops2 = [(int(o), int(l)) for o, l in a.cigartuples]
+        try:
+            ai = with_timeout(AlignmentInfo, a)
+            blocks = a.get_blocks(); cg = with_timeout(concat_gapless_blocks, blocks, a.cigartuples)
+        except (Exception, ImplTimeout) as e:
+            ctx.violation(None, "AlignmentInfo / concat_gapless_blocks raises %s on a well-formed alignment record" % type(e).__name__, {"ref_start": rs, "cigar": ops2, "error": str(e)[:300]}); continue
         cases.append(("(((%s, %s), %s), (%s, %s))" % (cz(rs), cops(ops2), cblocks3(ai.read_exons, ai.read_blocks, ai.cigar_blocks), civs(blocks), civs(cg)),
                       {"ref_start": rs, "cigar": ops2, "exons": ai.read_exons, "get_blocks": blocks, "concat_gapless": cg}))
     ctx.rule("AlignmentInfo/concat_gapless_blocks: random well-formed CIGARs (clips at the ends, >=1 match) on real pysam.AlignedSegment objects")
     mism, viol = ctx.corr("alignment_info+concat_gapless", PRE_AI, cases)
     ctx.corr_report("alignment_info+concat_gapless", mism, viol)
 
+
+def sec_add_polya_info(ctx, quick):
+    from src.alignment_info import AlignmentInfo
+    from src import polya_verification as pv
+    from src import polya_finder as pf
+    rnd = ctx.rnd
     # ---- 3. add_polya_info with all position pairs over small exon lists
-    PRE_PA = """From IQ Require Import PolyA PolyA2.
+    PRE_PA = """From IQ Require Import PolyA PolyA2 PolyAProofs3.
 Open Scope Z_scope.
 Definition pinfo_eqb (a b:pinfo) := (ext_a a =? ext_a b) && (ext_t a =? ext_t b) && (int_a a =? int_a b) && (int_t a =? int_t b).
 Definition res := outcome (list iv * pinfo * (Z*Z)).
@@ -112,7 +141,9 @@ Definition check (c:(Z * list iv * pinfo) * res) := let '(mf, ex, p) := fst c in
 Fixpoint is_infix (a b:list iv) : bool :=
   match b with [] => match a with [] => true | _ => false end
   | _ :: t => ivs_eqb a (firstn (length a) b) || is_infix a t end.
-(* for every pair of tail positions: non-empty contiguous result, tail positions on the retained exons *)
+(* for every pair of tail positions: non-empty contiguous result, tail positions on the retained exons, and WHERE on them:
+   PolyAProofs3.tail_spec (proved of the model: C16_tail_position_spec_of_add_polya_info) - for each side on which exons were removed, every
+   recorded position of that side = boundary of the retained exon +- number of bases of the removed exons between it and the old position *)
 Definition prop (c:(Z * list iv * pinfo) * res) :=
   let '(mf, ex, p) := fst c in
     match snd c with
@@ -120,7 +151,8 @@ Definition prop (c:(Z * list iv * pinfo) * res) :=
     | Ok (ex', p', (a, t)) =>
        negb (length ex' =? 0)%nat && is_infix ex' ex &&
        ((a <=? 0) || (int_a p =? -1) || (snd (last ex' (0,0)) <=? int_a p') || (0 <? t)) &&
-       ((t <=? 0) || (int_t p =? -1) || (int_t p' <=? fst (hd (0,0) ex')))
+       ((t <=? 0) || (int_t p =? -1) || (int_t p' <=? fst (hd (0,0) ex'))) &&
+       tail_spec ex p (ex', p', (a, t))
     end.
 """
     class FakeAln: pass
@@ -140,10 +172,13 @@ Definition prop (c:(Z * list iv * pinfo) * res) :=
             def correct_read_info(self, ex, pi):
                 cnt["v"] = fixer.correct_read_info(ex, pi); return cnt["v"]
         try:
-            ai.add_polya_info(FakeFinder(info), Fx())
+            with_timeout(ai.add_polya_info, FakeFinder(info), Fx())
         except IndexError:
             return None
-        assert len(ai.read_blocks) == len(ai.read_exons) == len(ai.cigar_blocks)
+        except (Exception, ImplTimeout) as e:
+            return "raises " + type(e).__name__
+        if not (len(ai.read_blocks) == len(ai.read_exons) == len(ai.cigar_blocks)):
+            ctx.violation(None, "read_blocks / cigar_blocks not trimmed in step with read_exons", {"exons": exons, "positions": pos4}); return "raises length mismatch"
         # read_blocks / cigar_blocks must be trimmed in step with the exons
         if ai.read_exons:
             k = exons.index(ai.read_exons[0]) if ai.read_exons[0] in exons else -1
@@ -167,12 +202,22 @@ Definition prop (c:(Z * list iv * pinfo) * res) :=
             et = it if it == -1 or rnd.random() < .5 else max(1, it - rnd.randint(0, 3))
             r = run_add(ex, (ea, et, ia, it))
             inp = "(%s, %s, (mkp %s %s %s %s))" % (cz(8), civs(ex), cz(ea), cz(et), cz(ia), cz(it))
-            out = "(Raises 1)" if r is None else "(Ok (%s, (mkp %s %s %s %s), (%s, %s)))" % (civs(r[0]), cz(r[1][0]), cz(r[1][1]), cz(r[1][2]), cz(r[1][3]), cz(r[2][0]), cz(r[2][1]))
+            out = "(Raises 1)" if r is None else "(Raises 9)" if isinstance(r, str) else "(Ok (%s, (mkp %s %s %s %s), (%s, %s)))" % (civs(r[0]), cz(r[1][0]), cz(r[1][1]), cz(r[1][2]), cz(r[1][3]), cz(r[2][0]), cz(r[2][1]))
             cases.append(("(%s, %s)" % (inp, out), {"exons": ex, "positions(ext_a,ext_t,int_a,int_t)": (ea, et, ia, it), "impl": r}))
-    ctx.rule("add_polya_info: exon lists of 1-4 exons x internal polyA/polyT positions at every exon boundary +-{2,0,1,3} and outside the read (max_fake_terminal_exon_len=8); non-trivial = at least one exon trimmed")
-    mism, viol = ctx.corr("add_polya_info", PRE_PA, cases, nontrivial=lambda o: o["impl"] is None or len(o["impl"][0]) < len(o["exons"]))
+    ctx.rule("add_polya_info: exon lists of 1-4 exons x internal polyA/polyT positions at every exon boundary +-{2,0,1,3} and outside the read (max_fake_terminal_exon_len=8); the specification includes the tail-position clause C16_tail_position_spec (new position = boundary of the retained exon +- bases of the removed exons up to the old position); non-trivial = at least one exon trimmed")
+    mism, viol = ctx.corr("add_polya_info", PRE_PA, cases, nontrivial=lambda o: o["impl"] is None or isinstance(o["impl"], str) or len(o["impl"][0]) < len(o["exons"]))
     ctx.corr_report("add_polya_info", mism, viol)
 
+
+def mkseg(ops, rs, seq):
+    import pysam
+    a = pysam.AlignedSegment(); a.query_name = "r"; a.flag = 0; a.reference_id = 0; a.reference_start = rs; a.cigartuples = ops; a.query_sequence = seq
+    return a
+
+
+def sec_finder(ctx, quick):
+    from src import polya_finder as pf
+    rnd = ctx.rnd
     # ---- 4. PolyAFinder: sliding window, reference projection, tail/head detection on real pysam segments
     PRE_F = """From IQ Require Import Cigar Cigar2.
 Open Scope Z_scope.
@@ -183,13 +228,10 @@ Definition model (c:(Z*Z) * list Z * list cop * Z * (Z*Z*bool) * bool) : outcome
   if tail then find_polya_tail (fst wn) (snd wn) 3 4 seq ops rs fr to en else find_polyt_head (fst wn) (snd wn) 3 4 seq ops rs fr to en.
 Definition check (c:((Z*Z) * list Z * list cop * Z * (Z*Z*bool) * bool) * outcome Z) := zres_eqb (model (fst c)) (snd c).
 Definition prop (c:((Z*Z) * list Z * list cop * Z * (Z*Z*bool) * bool) * outcome Z) :=
-  match snd c with Ok v => (v =? -1) || (0 <? v) | Raises _ => true end.
+  match snd c with Ok v => (v =? -1) || (0 <? v) | Raises 2 => true | Raises _ => false end.
 """
     BASE = {"A": 0, "C": 1, "G": 2, "T": 3, "N": 4}
     cases = []
-    def mkseg(ops, rs, seq):
-        a = pysam.AlignedSegment(); a.query_name = "r"; a.flag = 0; a.reference_id = 0; a.reference_start = rs; a.cigartuples = ops; a.query_sequence = seq
-        return a
     n_f = 1200 if quick else 8000
     for i in range(n_f):
         w = rnd.choice([4, 8, 16, 16])
@@ -214,16 +256,24 @@ Definition prop (c:((Z*Z) * list Z * list cop * Z * (Z*Z*bool) * bool) * outcome
             for (fr, to, en) in ((2, 2 * w, False), (4 * w, 2, True)):
                 f = finder.find_polya_tail if tail else finder.find_polyt_head
                 try:
-                    v = f(a, fr, to, en) if tail else f(a, fr, to, en)
+                    v = with_timeout(f, a, fr, to, en)
                     out = "(Ok %s)" % cz(v)
                 except AssertionError:
                     v = "AssertionError"; out = "(Raises 2)"
+                except (Exception, ImplTimeout) as e:
+                    v = "raises " + type(e).__name__; out = "(Raises 9)"
                 term = "((((((%s,%s), %s), %s), %s), (%s,%s,%s)), %s)" % (cz(w), cz(int(w * 0.75)), clist([BASE.get(ch.upper(), 4) for ch in seq], str), cops(ops), cz(rs), cz(fr), cz(to), cbool(en), cbool(tail))
                 cases.append(("(%s, %s)" % (term, out), {"window": w, "seq": seq, "cigar": ops, "ref_start": rs, "from,to,entire": (fr, to, en), "tail": tail, "impl": v}))
     ctx.rule("PolyAFinder.find_polya_tail/find_polyt_head (incl. find_polya, move_ref_coord_alogn_alignment) on real pysam segments: random CIGARs with planted A tails / T heads, windows {4,8,16}; non-trivial = a tail was found")
     mism, viol = ctx.corr("polya_finder", PRE_F, cases, shard=300, nontrivial=lambda o: o["impl"] not in (-1, "AssertionError"))
     ctx.corr_report("polya_finder", mism, viol)
 
+
+def sec_e2e(ctx, quick):
+    from src.alignment_info import AlignmentInfo
+    from src import polya_verification as pv
+    from src import polya_finder as pf
+    rnd = ctx.rnd
     # real finder + real fixer + real AlignmentInfo on multi-exon reads with T heads and A tails: trimming never fails
     finder = pf.PolyAFinder(); fixer40 = pv.PolyAFixer(types.SimpleNamespace(max_fake_terminal_exon_len=40))
     n_e2e = 30000 if quick else 300000; both = inv = trimmed = 0
@@ -241,18 +291,270 @@ Definition prop (c:((Z*Z) * list Z * list cop * Z * (Z*Z*bool) * bool) * outcome
             if rnd.random() < .92: seq[j] = "A"
         for j in range(0, min(hl, ln)):
             if rnd.random() < .92: seq[j] = "T"
-        a = mkseg(ops, 1000, "".join(seq)); ai = AlignmentInfo(a); before = list(ai.read_exons)
+        a = mkseg(ops, 1000, "".join(seq)); before = None; ai = None
         try:
-            ai.add_polya_info(finder, fixer40)
+            ai = AlignmentInfo(a); before = list(ai.read_exons)
+            with_timeout(ai.add_polya_info, finder, fixer40)
             okr = len(ai.read_exons) > 0 and ai.read_exons == sorted(ai.read_exons)
-        except IndexError:
+        except (Exception, ImplTimeout):
             okr = False
-        p = ai.polya_info
+        p = getattr(ai, "polya_info", None)
         if p is not None and p.internal_polya_pos != -1 and p.internal_polyt_pos != -1: both += 1
         if okr and len(ai.read_exons) < len(before): trimmed += 1
         if not okr:
-            ctx.violation(None, "add_polya_info with the real PolyAFinder leaves no exon (IndexError / empty list)", {"cigar": ops, "seq": "".join(seq), "ref_start": 1000, "exons_before": before})
+            ctx.violation(None, "add_polya_info with the real PolyAFinder raises or leaves no / unordered exons", {"cigar": ops, "seq": "".join(seq), "ref_start": 1000, "exons_before": before})
     ctx.count(evaluations=n_e2e, nontrivial=trimmed)
     ctx.rule("end-to-end trimming: random 2-4 exon reads with planted T heads / A tails through the real PolyAFinder, PolyAFixer and AlignmentInfo.add_polya_info; non-trivial = exons were trimmed")
     ctx.notes.append("end-to-end trimming: %d reads, %d with both internal tails, %d trimmed" % (n_e2e, both, trimmed))
-    ctx.assume.append("pysam/htslib: cigartuples, get_blocks, reference_end")
+
+
+# ------------------------------------------------------------------ pipeline level: the exons column of *.read_assignments.tsv
+BASES = {"A": 0, "C": 1, "G": 2, "T": 3, "N": 4}
+EXON_KINDS = ["M", "M", "EQX", "INS", "DEL", "I_N", "N_I", "D_N", "N_D"]
+
+def zlist(vals):
+    """list Z literal in chunks (very long list literals overflow coqc's stack)"""
+    vals = list(vals)
+    if len(vals) <= 800: return "[" + ";".join(map(str, vals)) + "]"
+    return "(" + " ++ ".join("[" + ";".join(map(str, vals[i:i + 800])) + "]" for i in range(0, len(vals), 800)) + ")"
+
+
+def exon_part(sub, kind):
+    """CIGAR operations and query bases for one exon whose reference bases are `sub`; the exon's reference interval is the same for every kind"""
+    ln = len(sub)
+    if ln < 12: kind = "M"
+    if kind == "EQX":
+        c = ln // 3; mut = "".join("ACGT"[(BASES.get(x, 0) + 1) % 4] for x in sub[c:c + 2]); return [(7, c), (8, 2), (7, ln - c - 2)], sub[:c] + mut + sub[c + 2:]
+    if kind == "INS": c = ln // 2; return [(0, c), (1, 3), (0, ln - c)], sub[:c] + "GGG" + sub[c:]
+    if kind == "DEL": c = ln // 2; return [(0, c), (2, 4), (0, ln - c - 4)], sub[:c] + sub[c + 4:]
+    if kind == "I_N": return [(0, ln), (1, 2)], sub + "CC"              # insertion right before the next N (or the end of the alignment)
+    if kind == "N_I": return [(1, 2), (0, ln)], "CC" + sub              # insertion right after the previous N (or the start of the alignment)
+    if kind == "D_N": return [(0, ln - 3), (2, 3)], sub[:ln - 3]        # deletion next to N / trailing deletion
+    if kind == "N_D": return [(2, 3), (0, ln - 3)], sub[3:]             # deletion next to N / leading deletion
+    return [(0, ln)], sub
+
+
+def c16_dataset(seed, dest, per_chain):
+    """Two chromosomes, each with an annotated '+' gene, an annotated '-' gene, an unannotated spliced locus and an unannotated mono-exonic locus.
+       Long reads: every CIGAR operation kind (M = X I D N S H), indels next to N and at the ends of the alignment, N N, clips of all shapes,
+       polyA tails / polyT heads aligned as one or two extra terminal exons, junctions 4 bp off the short-read junctions, secondary alignments
+       under the same read id, low mapping qualities.  Short reads: across every true junction."""
+    import pysam
+    from gen_data import World
+    rnd = random.Random(seed * 104729 + 16)
+    w = World(seed * 31 + 16, n_chr=2, chr_len=(72000, 78000), genes_per_chr=(0, 0))
+    loci = []
+    for chrom in list(w.chroms):
+        w.chroms[chrom] = list(w.chroms[chrom]); pos = 3000
+        for li, (kind, strand) in enumerate([("gene", "+"), ("gene", "-"), ("unannotated", rnd.choice("+-")), ("mono", "+")]):
+            n = 1 if kind == "mono" else rnd.randint(4, 6); pool = []
+            for _ in range(n):
+                ln = rnd.randint(40, 220); pool.append((pos, pos + ln - 1)); pos += ln + rnd.randint(90, 700)
+            chains = [list(range(n))] + ([[0] + list(range(2, n))] if n >= 4 else [])
+            locus = dict(kind=kind, chr=chrom, strand=strand, pool=pool, chains=chains, id="%s_L%d" % (chrom, li))
+            for ch in chains: w.plant([pool[i] for i in ch], chrom, strand)
+            loci.append(locus)
+            if kind == "gene":
+                w.genes.append(dict(id=locus["id"], chr=chrom, strand=strand, pool=pool, isoforms={"%s.T%d" % (locus["id"], k): ch for k, ch in enumerate(chains)}, start=pool[0][0], end=pool[-1][1]))
+            pos += rnd.randint(5000, 7000)
+        w.chroms[chrom] = "".join(w.chroms[chrom])
+    def rseq(n): return "".join(rnd.choice("ACGT") for _ in range(n))
+    def add(name, locus, exons, strand, kinds, lead, trail, tails=(), into=0, nn=False, flag=0, mapq=60):
+        ref = w.chroms[locus["chr"]]; ops = []; q = ""
+        for k, (a, b) in enumerate(exons):
+            if k:
+                gap = a - exons[k - 1][1] - 1
+                ops += [(3, gap // 2), (3, gap - gap // 2)] if (nn and gap > 20) else [(3, gap)]
+            o, s_ = exon_part(ref[a - 1:b].upper(), kinds[k % len(kinds)]); ops += o; q += s_
+        start = exons[0][0] - 1
+        if into:                                   # the tail begins inside the last real exon
+            q = (q[:-into] + "A" * into) if strand == "+" else ("T" * into + q[into:])
+        for gap, k_ in tails:                      # aligned tail: extra terminal exon(s) of A (right end) / T (left end)
+            if strand == "+": ops += [(3, gap), (0, k_)]; q += "A" * k_
+            else: ops = [(0, k_), (3, gap)] + ops; q = "T" * k_ + q; start -= gap + k_
+        polyclip = bool(tails) or rnd.random() < .5
+        if lead in ("S", "HS"):
+            n = rnd.randint(3, 30); ops = [(4, n)] + ops; q = (("T" * n) if (polyclip and strand == "-") else rseq(n)) + q
+        if lead in ("H", "HS"): ops = [(5, rnd.randint(1, 20))] + ops
+        if trail in ("S", "SH"):
+            n = rnd.randint(3, 30); ops = ops + [(4, n)]; q = q + (("A" * n) if (polyclip and strand == "+") else rseq(n))
+        if trail in ("H", "SH"): ops = ops + [(5, rnd.randint(1, 20))]
+        if start < 0 or start + sum(l for o, l in ops if o in (0, 2, 3, 7, 8)) >= len(ref): return
+        w.reads.append(dict(name=name, chr=locus["chr"], start=start, cigar=ops, seq=q, flag=flag | (16 if strand == "-" else 0), mapq=mapq, tags={}))
+    n = 0
+    for li, locus in enumerate(loci):
+        for ci, ch in enumerate(locus["chains"]):
+            full = [locus["pool"][i] for i in ch]
+            for rep in range(per_chain):
+                ex = list(full); strand = locus["strand"]
+                if len(ex) == 1:
+                    d1, d2 = rnd.randint(0, 8), rnd.randint(0, 8); ex = [(ex[0][0] + d1, ex[0][1] - d2)]
+                else:
+                    r = rnd.random()
+                    if r < .12: ex = ex[1:]
+                    elif r < .24: ex = ex[:-1]
+                    if len(ex) > 1 and rnd.random() < .35:       # 4 bp off the (short-read) junction on one side
+                        j = rnd.randrange(len(ex) - 1)
+                        if rnd.random() < .5: ex[j + 1] = (ex[j + 1][0] - 4, ex[j + 1][1])
+                        else: ex[j] = (ex[j][0], ex[j][1] + 4)
+                kinds = [rnd.choice(EXON_KINDS) for _ in ex] if rep % 3 else [EXON_KINDS[(rep // 3 + k) % len(EXON_KINDS)] for k in range(len(ex))]
+                r = rnd.random(); tails = (); into = 0
+                if r < .3: tails = ((rnd.randint(60, 400), rnd.choice([6, 10, 18, 25, 34])),)
+                elif r < .4: tails = ((rnd.randint(60, 300), rnd.choice([8, 14, 20])), (rnd.randint(60, 300), rnd.choice([12, 22, 30])))
+                if tails and rnd.random() < .5: into = rnd.choice([4, 10, 16])
+                name = "r%d_%s_c%d" % (n, locus["id"], ci); n += 1
+                add(name, locus, ex, strand, kinds, rnd.choice(["", "S", "S", "HS", "H"]), rnd.choice(["", "S", "S", "SH", "H"]), tails, into, nn=rnd.random() < .2,
+                    mapq=60 if rnd.random() < .9 else rnd.choice([0, 3, 20]))
+                if rnd.random() < .12:                          # a secondary alignment of the same read at another locus
+                    other = rnd.choice([l for l in loci if l is not locus and len(l["pool"]) > 1])
+                    add(name, other, [other["pool"][i] for i in other["chains"][0]], other["strand"], ["M"], "S", "", flag=256)
+    paths = w.write(dest)
+    names = list(w.chroms); hdr = {"HD": {"VN": "1.6", "SO": "unsorted"}, "SQ": [{"SN": c, "LN": len(w.chroms[c])} for c in names]}
+    u = os.path.join(dest, "u_ill.bam"); ill = os.path.join(dest, "illumina.bam"); k = 0
+    with pysam.AlignmentFile(u, "wb", header=hdr) as out:
+        for locus in loci:
+            for ch in locus["chains"]:
+                iso = [locus["pool"][i] for i in ch]
+                for a, b in zip(iso, iso[1:]):
+                    for rep in range(3):
+                        l1 = min(40, a[1] - a[0] + 1); l2 = min(40, b[1] - b[0] + 1); ref = w.chroms[locus["chr"]]
+                        r = pysam.AlignedSegment(); r.query_name = "s%d" % k; k += 1; r.flag = 0; r.reference_id = names.index(locus["chr"]); r.reference_start = a[1] - l1
+                        r.cigartuples = [(0, l1), (3, b[0] - a[1] - 1), (0, l2)]; r.query_sequence = (ref[a[1] - l1:a[1]] + ref[b[0] - 1:b[0] - 1 + l2]).upper(); r.mapping_quality = 60
+                        out.write(r)
+    pysam.sort("-o", ill, u); pysam.index(ill); os.remove(u)
+    return dict(bam=paths[0], fasta=os.path.join(dest, "genome.fa"), gtf=os.path.join(dest, "annotation.gtf"), illumina=ill)
+
+
+PRE_PIPE = """From IQ Require Import Cigar Cigar2 PolyA PolyA2.
+Open Scope Z_scope.
+(* an alignment record: reference_start (0-based), CIGAR, query bases (A=0 C=1 G=2 T=3 other=4) *)
+Definition arec := (Z * list cop * list Z)%type.
+Definition quad := (Z * Z * Z * Z)%type.
+Definition quad_eqb (a b:quad) : bool := let '(a1, a2, a3, a4) := a in let '(b1, b2, b3, b4) := b in (a1 =? b1) && (a2 =? b2) && (a3 =? b3) && (a4 =? b4).
+(* parameters of the run: max_fake_terminal_exon_len, window, polyA_count, fraction numerator / denominator *)
+Definition par := (Z * Z * Z * Z * Z)%type.
+(* PolyAFinder.detect_polya: external / internal polyA and polyT positions *)
+Definition finder (pr:par) (r:arec) : option quad :=
+  let '(mf, w, need, num, den) := pr in let '(rs, ops, seq) := r in
+  match find_polya_tail w need num den seq ops rs 2 (2 * w) false, find_polyt_head w need num den seq ops rs 2 (2 * w) false,
+        find_polya_tail w need num den seq ops rs (4 * w) 2 true, find_polyt_head w need num den seq ops rs (4 * w) 2 true with
+  | Ok ea, Ok et, Ok ia, Ok it => Some (ea, et, ia, it) | _, _, _, _ => None end.
+Definition cigar_exons (r:arec) : list iv := let '(rs, ops, _) := r in map (fun b => fst (fst b)) (get_read_blocks3 rs ops).
+(* the exons the read is reported with: SAM blocks of the CIGAR, minus the terminal exons that are an aligned polyA / polyT tail *)
+Definition model_exons (pr:par) (r:arec) : option (list iv) :=
+  let '(mf, w, need, num, den) := pr in
+  match finder pr r with Some (ea, et, ia, it) => Some (fst (fst (add_polya_info mf (cigar_exons r) (mkp ea et ia it)))) | None => None end.
+(* case: parameters, the alignment records of the BAM file that carry the line's read id on the line's chromosome (with the positions the real
+   PolyAFinder returned for them in the run, where it was called), the exons column of the line *)
+Definition tcase := (par * list (arec * option quad) * list iv)%type.
+Definition check (c:tcase) : bool :=
+  let '(pr, cands, _) := c in
+  forallb (fun ct => match snd ct with None => true | Some q => match finder pr (fst ct) with Some q' => quad_eqb q q' | None => false end end) cands.
+Definition prop (c:tcase) : bool :=
+  let '(pr, cands, printed) := c in
+  existsb (fun ct => match model_exons pr (fst ct) with Some ex => ivs_eqb ex printed | None => false end) cands.
+"""
+
+
+def sec_pipeline(ctx, quick):
+    import pysam, pipeline as P
+    from concurrent.futures import ThreadPoolExecutor
+    root = P.scratch("iqv_c16_")
+    hook = os.path.join(os.path.dirname(os.path.abspath(__file__)), "c16_hook.py")
+    try:
+        data = c16_dataset(ctx.seed, os.path.join(root, "data"), 16 if quick else 40)
+        recs = collections.defaultdict(list); n_rec = 0; kinds_seen = set(); shapes = collections.Counter()
+        with pysam.AlignmentFile(data["bam"]) as bam:
+            for a in bam:
+                ops = [(int(o), int(l)) for o, l in a.cigartuples]
+                recs[(a.query_name, a.reference_name)].append(dict(start=int(a.reference_start), cigar=ops, cigarstring=a.cigarstring, seq=a.query_sequence, flag=int(a.flag), mapq=int(a.mapping_quality)))
+                n_rec += 1; kinds_seen.update(o for o, _ in ops)
+                body = [o for o, _ in ops if o not in (4, 5)]
+                if body[0] in (1, 2): shapes["leading indel"] += 1
+                if body[-1] in (1, 2): shapes["trailing indel"] += 1
+                if any(x in (1, 2) and y == 3 or x == 3 and y in (1, 2) for x, y in zip(body, body[1:])): shapes["indel next to N"] += 1
+                if any(x == 3 and y == 3 for x, y in zip(body, body[1:])): shapes["N N"] += 1
+        missing = set((0, 1, 2, 3, 4, 5, 7, 8)) - kinds_seen
+        if missing: ctx.broken("harness:pipeline-generator", "the generated BAM lacks CIGAR operations %s" % sorted(missing))
+        base = ["--bam", data["bam"], "-r", data["fasta"], "-d", "nanopore", "-p", "S", "--no_gzip"]
+        g = ["-g", data["gtf"], "--complete_genedb"]
+        jobs = [dict(name="genedb", args=base + g + ["-t", "1"]),
+                dict(name="no-genedb", args=base + ["-t", "1"]),
+                dict(name="genedb+illumina", args=base + g + ["-t", "1", "--illumina_bam", data["illumina"]]),
+                dict(name="no-genedb+illumina", args=base + ["-t", "2", "--illumina_bam", data["illumina"]]),
+                dict(name="genedb+high_memory", args=base + g + ["-t", "2", "--high_memory"])]
+        if not quick:
+            jobs += [dict(name="genedb+illumina+high_memory", args=base + g + ["-t", "2", "--high_memory", "--illumina_bam", data["illumina"]]),
+                     dict(name="genedb+precise", args=base + g + ["-t", "1", "--matching_strategy", "precise"]),
+                     dict(name="no-genedb+no_secondary", args=base + ["-t", "1", "--no_secondary"])]
+        P.ensure_reference_index(data["fasta"])
+        def run_job(job):
+            out = os.path.join(root, job["name"] + "_out"); os.makedirs(out); log = os.path.join(root, job["name"] + ".c16.log")
+            rc, txt = P.run_isoquant(out, job["args"], wrapper=hook, env_extra={"C16_LOG": log})
+            return job, rc, txt, out, log
+        with ThreadPoolExecutor(5) as ex:
+            results = list(ex.map(run_job, jobs))
+        for job, rc, txt, out, log in results:
+            ctx.cov["pipeline_runs"] += 1
+            if rc != 0:
+                ctx.violation(None, "IsoQuant exits with %d on well-formed alignment records (%s)" % (rc, job["name"]), {"job": job["name"], "arguments": job["args"], "log_tail": txt[-2000:]}); continue
+            pars = set(); traced = {}; exons_traced = {}
+            if os.path.exists(log):
+                for l in open(log):
+                    v = l.rstrip("\n").split("\t")
+                    if v[0] == "P": pars.add((int(v[1]), int(v[2]), Fraction(float(v[3])).limit_denominator(10 ** 6), int(v[4])))
+                    elif v[0] == "D": traced[(v[1], v[2], int(v[3]), v[4])] = tuple(int(x) for x in v[5:9])
+                    elif v[0] == "X": exons_traced[(v[1], v[2], int(v[3]), v[4])] = P.parse_ranges(v[5])
+                    elif v[0] == "E": ctx.broken("harness:pipeline-trace", "run %s: the trace wrapper could not log a call: %s" % (job["name"], l[:300]))
+            if len(pars) != 1:
+                ctx.broken("harness:pipeline-trace", "run %s: expected one set of polyA parameters in the trace, got %s" % (job["name"], sorted(pars))); continue
+            mf, win, frac, need = next(iter(pars))
+            cpar = "(%s, %s, %s, %s, %s)" % (cz(mf), cz(win), cz(need), cz(frac.numerator), cz(frac.denominator))
+            # observation points: the exons column of read_assignments.tsv (written only with --genedb); without an annotation the in-process
+            # AlignmentInfo.read_exons after add_polya_info (trace), one line per processed record
+            lines = []
+            if "-g" in job["args"]:
+                tsv = P.find(out, "S", "read_assignments.tsv")
+                if tsv is None:
+                    ctx.violation(None, "no read_assignments.tsv written (%s)" % job["name"], {"job": job["name"], "arguments": job["args"]}); continue
+                for d in P.read_assignments(tsv):
+                    lines.append(dict(d, cands=recs.get((d["read_id"], d["chr"]), []), observed="exons column of read_assignments.tsv"))
+            else:
+                for (rid, chr_id, st, cig), exs in exons_traced.items():
+                    lines.append(dict(read_id=rid, chr=chr_id, exons=exs, assignment_type=None, isoform_id=None, observed="AlignmentInfo.read_exons after add_polya_info (trace)",
+                                      cands=[c for c in recs.get((rid, chr_id), []) if c["start"] == st and c["cigarstring"] == cig]))
+            cases = []; seen = set(); n_lines = 0
+            for d in lines:
+                n_lines += 1
+                cands = d["cands"]
+                if not cands:
+                    ctx.violation(None, "a read is reported that has no alignment record on that chromosome", {"job": job["name"], "line": {k: v for k, v in d.items() if k != "cands"}}); continue
+                key = (d["read_id"], d["chr"], tuple(d["exons"]), tuple((c["start"], c["cigarstring"]) for c in cands))
+                if key in seen: continue
+                seen.add(key)
+                cterms = []
+                for c in cands:
+                    t = traced.get((d["read_id"], d["chr"], c["start"], c["cigarstring"]))
+                    cterms.append("((%s, %s, %s), %s)" % (cz(c["start"]), cops(c["cigar"]), zlist(BASES.get(ch.upper(), 4) for ch in c["seq"]),
+                                                        "None" if t is None else "(Some (%s, %s, %s, %s))" % tuple(cz(x) for x in t)))
+                blocks = [sum(1 for o, _ in c["cigar"] if o == 3) + 1 for c in cands]
+                cases.append(("(%s, %s, %s)" % (cpar, clist(cterms), civs(d["exons"])),
+                              {"job": job["name"], "arguments": job["args"], "observed": d["observed"], "read_id": d["read_id"], "chr": d["chr"], "assignment_type": d["assignment_type"], "isoform_id": d["isoform_id"],
+                               "exons_column": d["exons"], "alignment_records(reference_start, cigar, flag, mapq)": [(c["start"], c["cigarstring"], c["flag"], c["mapq"]) for c in cands],
+                               "query_sequences": [c["seq"] for c in cands], "max_fake_terminal_exon_len": mf,
+                               "nontrivial": any(o not in (0, 3) for c in cands for o, _ in c["cigar"]) or len(d["exons"]) < min(blocks)}))
+            n_trim = sum(1 for _, o in cases if len(o["exons_column"]) < min(sum(1 for x in c[1].split("N")) for c in o["alignment_records(reference_start, cigar, flag, mapq)"]))
+            mism, viol = ctx.corr("pipeline-exons-column/%s" % job["name"], PRE_PIPE, cases, shard=40, sample=1, ctype="tcase", nontrivial=lambda o: o["nontrivial"])
+            ctx.corr_report("pipeline-exons-column/%s" % job["name"], mism, viol, keyfn=lambda o: None,
+                            what="reported exons (exons column of read_assignments.tsv / AlignmentInfo.read_exons) differ from the blocks of the record's CIGAR with the aligned polyA/polyT exons removed")
+            ctx.notes.append("pipeline %s: %d TSV lines, %d distinct (read, exons) cases, %d with fewer exons than N-separated blocks, %d detect_polya calls traced, max_fake_terminal_exon_len=%d" % (job["name"], n_lines, len(cases), n_trim, len(traced), mf))
+            if not cases: ctx.broken("harness:pipeline", "run %s printed no read assignment" % job["name"])
+            elif n_trim == 0 and "precise" not in job["name"]: ctx.broken("harness:pipeline-generator", "run %s: no read lost an aligned polyA/polyT exon (generator too weak)" % job["name"])
+        ctx.notes.append("pipeline data: %d alignment records, CIGAR operations %s, %s" % (n_rec, sorted(kinds_seen), dict(shapes)))
+        ctx.rule("pipeline: generated two-chromosome data (annotated '+' and '-' genes, an unannotated spliced locus, an unannotated mono-exonic locus; %d alignment records with every operation of {M,=,X,I,D,N,S,H}, "
+                 "indels next to N and at both ends, N N, all clip shapes, polyA tails / polyT heads aligned as one or two terminal exons, junctions 4 bp off the short-read junctions, secondary alignments under the same "
+                 "read id, low MAPQ) through isoquant.py with / without --genedb, with --illumina_bam, with --high_memory: for EVERY line of read_assignments.tsv (runs without --genedb write no such file: there every AlignmentInfo.read_exons after add_polya_info, taken from the trace) Coq recomputes the exons from the BAM record alone "
+                 "(get_read_blocks model = SAM blocks, PolyAFinder model on the query sequence, add_polya_info model with the run's max_fake_terminal_exon_len) and compares them with the exons column; one of the read's "
+                 "records on that chromosome must match; the positions the real PolyAFinder returned in the run (trace) are compared with the finder model; non-trivial = a CIGAR with operations other than M/N or a trimmed read" % n_rec)
+    finally:
+        shutil.rmtree(root, ignore_errors=True)
